@@ -322,6 +322,8 @@ def main(c):
     lap("binding_selftest")
     c.confirm(drv, "c15", specs, "Routing_Trace.tla", "Routing_Trace.cfg", cands, sig_of)
     lap("confirm")
+    for n in c.notes:
+        vcheck.log("C15 note: %s" % n)
     c.cov["phase_seconds"] = phase
     vcheck.log("C15 phases (s): %s" % phase)
     return c.finish(
